@@ -225,10 +225,50 @@ def _map_body(stmts, f):
     return f(out)
 
 
+def _negate_test(t):
+    if isinstance(t, ast.Compare) and len(t.ops) == 1 and isinstance(t.ops[0], (ast.Is, ast.IsNot)):
+        return ast.copy_location(ast.Compare(left=t.left, ops=[ast.IsNot() if isinstance(t.ops[0], ast.Is) else ast.Is()], comparators=t.comparators), t)
+    return ast.copy_location(ast.UnaryOp(op=ast.Not(), operand=t), t)
+
+
+def _call_with_one_ifexp(e):
+    """(call, index) when `e` is `f(a1, …, <X if C else Y>, …)` with `f` a plain (dotted) name and every other argument a
+    name or a constant — then evaluating `C` before `f` and the other arguments changes nothing"""
+    def dotted(x):
+        return isinstance(x, ast.Name) or (isinstance(x, ast.Attribute) and dotted(x.value))
+    if not (isinstance(e, ast.Call) and not e.keywords and dotted(e.func)):
+        return None
+    idx = [i for i, a in enumerate(e.args) if isinstance(a, ast.IfExp)]
+    if len(idx) != 1 or not all(isinstance(a, (ast.Name, ast.Constant)) for i, a in enumerate(e.args) if i != idx[0]):
+        return None
+    return idx[0]
+
+
 def ifexp_to_if(tree):
     def f(stmts):
         out = []
         for s in stmts:
+            # `x = C if x is None else x` / `x = x if x is not None else C`: the self-assignment is no statement at all
+            if isinstance(s, ast.Assign) and isinstance(s.value, ast.IfExp) and len(s.targets) == 1 and isinstance(s.targets[0], ast.Name) \
+                    and (isinstance(s.value.orelse, ast.Name) and s.value.orelse.id == s.targets[0].id
+                         or isinstance(s.value.body, ast.Name) and s.value.body.id == s.targets[0].id):
+                e = s.value
+                if isinstance(e.orelse, ast.Name) and e.orelse.id == s.targets[0].id:
+                    out.append(ast.copy_location(ast.If(test=e.test, body=[ast.copy_location(ast.Assign(targets=[copy.deepcopy(s.targets[0])], value=e.body), s)], orelse=[]), s))
+                else:
+                    out.append(ast.copy_location(ast.If(test=_negate_test(e.test), body=[ast.copy_location(ast.Assign(targets=[copy.deepcopy(s.targets[0])], value=e.orelse), s)], orelse=[]), s))
+                continue
+            # a conditional expression as one argument of the call that is the whole right-hand side / return value
+            val = s.value if isinstance(s, (ast.Assign, ast.Return)) else None
+            k = _call_with_one_ifexp(val) if val is not None else None
+            if k is not None and (isinstance(s, ast.Return) or (len(s.targets) == 1 and isinstance(s.targets[0], ast.Name))):
+                ie = val.args[k]
+                def mk(arg):
+                    c = copy.deepcopy(val); c.args[k] = arg
+                    return ast.copy_location(ast.Return(value=c), s) if isinstance(s, ast.Return) \
+                        else ast.copy_location(ast.Assign(targets=[copy.deepcopy(s.targets[0])], value=c), s)
+                out.append(ast.copy_location(ast.If(test=ie.test, body=[mk(ie.body)], orelse=[mk(ie.orelse)]), s))
+                continue
             if isinstance(s, ast.Assign) and isinstance(s.value, ast.IfExp) and len(s.targets) == 1 and isinstance(s.targets[0], ast.Name):
                 e = s.value
                 out.append(ast.copy_location(ast.If(test=e.test,
@@ -714,7 +754,9 @@ def int_idioms(tree):
 
         def visit_Call(self, n):
             self.generic_visit(n)
-            if isinstance(n.func, ast.Attribute) and n.func.attr == "to_bytes" and is_len(n.func.value) and not n.keywords:
+            if isinstance(n.func, ast.Attribute) and n.func.attr == "to_bytes" and not n.keywords \
+                    and (is_len(n.func.value) or isinstance(n.func.value, ast.BinOp)):
+                # `E.to_bytes(k, order)` is `int.to_bytes(E, k, order)` whenever E is an int (the translator types it or refuses)
                 return ast.copy_location(ast.Call(func=ast.Attribute(value=ast.Name(id="int", ctx=ast.Load()), attr="to_bytes", ctx=ast.Load()),
                                                   args=[n.func.value] + list(n.args), keywords=[]), n)
             return n
@@ -1250,13 +1292,80 @@ def helper_values_to_lambdas(tree):
     return tree
 
 
+def reuse_dead_parameter(tree):
+    """`y = <expr of parameter x>` (or an `if` whose every branch assigns `y`), where `y` is bound nowhere else in the
+    function and not read before, and `x` is neither read nor written anywhere after that statement: `y` is renamed
+    `x` (the parameter's slot is free from there on).  Brings "do not reassign parameters" clean-ups back to the
+    `if x is None: x = C` / `if isinstance(x, bytes): x = x.decode("ascii")` idioms."""
+    def names_in(node, ctxs):
+        return {n.id for n in ast.walk(node) if isinstance(n, ast.Name) and isinstance(n.ctx, ctxs)}
+
+    def binds_only(st, y):
+        """st is `y = e`, or an if / elif / else tree in which every branch is exactly one such assignment"""
+        if isinstance(st, ast.Assign):
+            return len(st.targets) == 1 and isinstance(st.targets[0], ast.Name) and st.targets[0].id == y
+        if isinstance(st, ast.If):
+            return len(st.body) == 1 and binds_only(st.body[0], y) and len(st.orelse) == 1 and binds_only(st.orelse[0], y)
+        return False
+
+    for fn in [n for n in ast.walk(tree) if isinstance(n, ast.FunctionDef)]:
+        params = [p.arg for p in fn.args.posonlyargs + fn.args.args + fn.args.kwonlyargs]
+        if any(isinstance(n, (ast.FunctionDef, ast.Lambda, ast.ClassDef, ast.Global, ast.Nonlocal)) for st in fn.body for n in ast.walk(st)):
+            continue                                    # closures may read a parameter later than the text shows
+        changed = True
+        while changed:
+            changed = False
+            for i, st in enumerate(fn.body):
+                stores = names_in(st, (ast.Store,))
+                if len(stores) != 1:
+                    continue
+                y = next(iter(stores))
+                if y in params or not binds_only(st, y):
+                    continue
+                others = [s2 for j, s2 in enumerate(fn.body) if j != i]
+                if any(y in names_in(s2, (ast.Store, ast.Del)) for s2 in others) or any(y in names_in(s2, (ast.Load,)) for s2 in fn.body[:i]):
+                    continue
+                cands = [x for x in params if x in names_in(st, (ast.Load,))
+                         and not any(x in names_in(s2, (ast.Load, ast.Store, ast.Del)) for s2 in fn.body[i + 1:])]
+                if len(cands) != 1:
+                    continue
+                x = cands[0]
+                for s2 in fn.body[i:]:
+                    _Rename({y: x}).visit(s2)
+                changed = True
+                break
+    return tree
+
+
+def drop_self_assignments(tree):
+    """`x = x` for a plain name is no statement; an `if` left with an empty branch is turned round"""
+    def is_self(s):
+        return isinstance(s, ast.Assign) and len(s.targets) == 1 and isinstance(s.targets[0], ast.Name) \
+            and isinstance(s.value, ast.Name) and s.value.id == s.targets[0].id
+
+    def f(stmts):
+        out = []
+        for s in stmts:
+            if isinstance(s, ast.If):
+                if s.orelse and all(is_self(x) for x in s.orelse):
+                    s.orelse = []
+                if s.orelse and all(is_self(x) for x in s.body):
+                    s.test = _negate_test(s.test); s.body, s.orelse = s.orelse, []
+            out.append(s)
+        return out
+    tree.body = _map_body(tree.body, f)
+    return tree
+
+
 def normalise_light(tree, signatures=None, aliases=None):
     """the rewrites that do not move code between functions (used for tlv.py and cvn.py)"""
     tree = inline_constants(tree)
     tree = fold_zero_bytes(tree)
     tree = drop_zero_lower_bounds(tree)
     tree = split_chained_compares(tree)
+    tree = reuse_dead_parameter(tree)
     tree = ifexp_to_if(tree)
+    tree = drop_self_assignments(tree)
     tree = small_equivalences(tree)
     tree = swap_is_not_none(tree)
     tree = helper_values_to_lambdas(tree)
@@ -1271,7 +1380,9 @@ def normalise(tree, public=(), signatures=None, aliases=None):
     tree = fold_zero_bytes(tree)
     tree = drop_zero_lower_bounds(tree)
     tree = split_chained_compares(tree)
+    tree = reuse_dead_parameter(tree)
     tree = ifexp_to_if(tree)
+    tree = drop_self_assignments(tree)
     tree = unroll_constant_loops(tree)
     tree = small_equivalences(tree)
     tree = index_loops_to_enumerate(tree)
